@@ -370,6 +370,84 @@ example : rlsT 2 1 = 2 := by
 end robust
 
 
+/-! ### the Barzilai–Borwein values and the curvature of `f` -/
+
+section bbbounds
+variable {E : Type} [NormedAddCommGroup E] [InnerProductSpace ℝ E]
+
+open Classical in
+/-- **The Barzilai–Borwein value lies between the curvature bounds of `f`.**  If along the step
+    `μ‖Δx‖² ≤ ⟨Δx,Δg⟩` (strong monotonicity of `∇f`, `μ > 0`) and `‖Δg‖² ≤ Lf·⟨Δx,Δg⟩` (co-coercivity: `f` convex with
+    `Lf`-Lipschitz gradient) with `Δx ≠ 0`, then `BBStepSize.update` does not fall back and returns a value in `[μ, Lf]`. -/
+theorem C16_bb_between (f : E → ℝ) (grad : E → E) (prox : E → XR ℝ → E) (smul : XR ℝ → E → E)
+    (x v xp : E) (L : XR ℝ) (ps : PolState E (XR ℝ)) (hprev : ps.prev = some (xp, grad xp)) (μ Lf : ℝ) (hμ : 0 < μ)
+    (hx : v - xp ≠ 0)
+    (hmono : μ * ‖v - xp‖ ^ 2 ≤ inner ℝ (v - xp) (grad v - grad xp))
+    (hcoco : ‖grad v - grad xp‖ ^ 2 ≤ Lf * inner ℝ (v - xp) (grad v - grad xp)) :
+    ∃ l : ℝ, update (envOfSpace f grad prox smul) .bb x L ps v = some (fin l, { ps with prev := some (v, grad v) }) ∧
+      μ ≤ l ∧ l ≤ Lf := by
+  set dx := v - xp with hdx
+  set dg := grad v - grad xp with hdg
+  have hxx : 0 < ‖dx‖ ^ 2 := by have := norm_pos_iff.2 hx; positivity
+  have hxg : 0 < inner ℝ dx dg := lt_of_lt_of_le (mul_pos hμ hxx) hmono
+  have hdg0 : dg ≠ 0 := by
+    intro h0
+    rw [h0, inner_zero_right] at hxg
+    exact lt_irrefl _ hxg
+  refine ⟨‖dg‖ ^ 2 / inner ℝ dx dg, ?_, ?_, ?_⟩
+  · rw [C16_bb_ratio_inner f grad prox smul x v xp L ps hprev, if_pos ⟨hxg, hdg0⟩]
+  · -- Cauchy–Schwarz: ⟨dx,dg⟩² ≤ ‖dx‖²‖dg‖²
+    rw [le_div_iff₀ hxg]
+    have hcs : inner ℝ dx dg * inner ℝ dx dg ≤ ‖dx‖ ^ 2 * ‖dg‖ ^ 2 := by
+      have h1 := real_inner_mul_inner_self_le dx dg
+      rw [real_inner_self_eq_norm_sq, real_inner_self_eq_norm_sq] at h1
+      exact h1
+    -- μ⟨⟩‖dx‖² ≤ ⟨⟩² ≤ ‖dx‖²‖dg‖²  ⇒  μ⟨⟩ ≤ ‖dg‖²
+    have h2 : μ * inner ℝ dx dg * ‖dx‖ ^ 2 ≤ ‖dg‖ ^ 2 * ‖dx‖ ^ 2 := by
+      calc μ * inner ℝ dx dg * ‖dx‖ ^ 2 = (μ * ‖dx‖ ^ 2) * inner ℝ dx dg := by ring
+        _ ≤ inner ℝ dx dg * inner ℝ dx dg := mul_le_mul_of_nonneg_right hmono (le_of_lt hxg)
+        _ ≤ ‖dx‖ ^ 2 * ‖dg‖ ^ 2 := hcs
+        _ = ‖dg‖ ^ 2 * ‖dx‖ ^ 2 := by ring
+    exact le_of_mul_le_mul_right h2 hxx
+  · rw [div_le_iff₀ hxg]
+    exact hcoco
+
+/-- The two Barzilai–Borwein estimates are ordered (Cauchy–Schwarz): `⟨Δx,Δg⟩/‖Δx‖² ≤ ‖Δg‖²/⟨Δx,Δg⟩` whenever
+    `⟨Δx,Δg⟩ > 0`, so the quantity `α_BB2/α_BB1 = L_BB1/L_BB2` compared with `κ` lies in `(0, 1]` (the reason for
+    `κ ∈ (0,1)`), and the value `AdaptiveBBStepSize.update` returns lies between the two estimates. -/
+theorem C16_adaptive_bb_order (dx dg : E) (hxg : 0 < inner ℝ dx dg) (k : ℝ) (Lprev : XR ℝ) (m1 m2 : Option (XR ℝ)) :
+    inner ℝ dx dg / ‖dx‖ ^ 2 ≤ ‖dg‖ ^ 2 / inner ℝ dx dg ∧
+    0 < (inner ℝ dx dg / ‖dx‖ ^ 2) / (‖dg‖ ^ 2 / inner ℝ dx dg) ∧
+    (inner ℝ dx dg / ‖dx‖ ^ 2) / (‖dg‖ ^ 2 / inner ℝ dx dg) ≤ 1 ∧
+    ∃ l : ℝ, (abbRule (fin k) Lprev m1 m2 (fin (‖dx‖ ^ 2)) (fin (inner ℝ dx dg)) (fin (‖dg‖ ^ 2))).1 = fin l ∧
+      inner ℝ dx dg / ‖dx‖ ^ 2 ≤ l ∧ l ≤ ‖dg‖ ^ 2 / inner ℝ dx dg := by
+  have hdx : dx ≠ 0 := by rintro rfl; simp at hxg
+  have hdg : dg ≠ 0 := by rintro rfl; simp at hxg
+  have hxx : 0 < ‖dx‖ ^ 2 := by have := norm_pos_iff.2 hdx; positivity
+  have hgg : 0 < ‖dg‖ ^ 2 := by have := norm_pos_iff.2 hdg; positivity
+  have hcs : inner ℝ dx dg * inner ℝ dx dg ≤ ‖dx‖ ^ 2 * ‖dg‖ ^ 2 := by
+    have h1 := real_inner_mul_inner_self_le dx dg
+    rw [real_inner_self_eq_norm_sq, real_inner_self_eq_norm_sq] at h1
+    exact h1
+  have hord : inner ℝ dx dg / ‖dx‖ ^ 2 ≤ ‖dg‖ ^ 2 / inner ℝ dx dg := by
+    rw [div_le_div_iff₀ hxx hxg]; linarith [hcs]
+  have h1 : 0 < inner ℝ dx dg / ‖dx‖ ^ 2 := div_pos hxg hxx
+  have h2 : 0 < ‖dg‖ ^ 2 / inner ℝ dx dg := div_pos hgg hxg
+  refine ⟨hord, div_pos h1 h2, (div_le_one h2).2 hord, ?_⟩
+  rw [C16_adaptive_bb k Lprev m1 m2 hxx hxg hgg]
+  unfold abbAlpha
+  split
+  · exact ⟨1 / (inner ℝ dx dg / ‖dg‖ ^ 2), rfl, by rw [one_div_div]; exact hord, by rw [one_div_div]⟩
+  · exact ⟨1 / (‖dx‖ ^ 2 / inner ℝ dx dg), rfl, by rw [one_div_div], by rw [one_div_div]; exact hord⟩
+
+-- non-vacuity of the hypotheses of `C16_bb_between`: f(x) = x² on ℝ (∇f = 2x), Δx = 1, Δg = 2, μ = Lf = 2
+example : (2 : ℝ) * ‖(1 : ℝ)‖ ^ 2 ≤ inner ℝ (1 : ℝ) (2 : ℝ) ∧ ‖(2 : ℝ)‖ ^ 2 ≤ 2 * inner ℝ (1 : ℝ) (2 : ℝ) := by
+  constructor
+  · simp
+  · simp; norm_num
+
+end bbbounds
+
 /-! ### the line search and the curvature of `f` -/
 
 section descent
@@ -406,6 +484,32 @@ theorem C16_linesearch_bounded (f : E → ℝ) (grad : E → E) (prox : E → XR
     rcases Nat.eq_zero_or_pos k with hk | hk
     · exact Or.inl hk
     · exact Or.inr (hrej (k - 1) (hall (k - 1) (by omega)))
+
+/-- … and when the budget reaches the curvature (`Lf ≤ L·γ_u^j` for some `j < maxiter`) the value returned is an
+    *accepted* one — the search does not end on "last value tried". -/
+theorem C16_linesearch_succeeds (f : E → ℝ) (grad : E → E) (prox : E → XR ℝ → E) (smul : XR ℝ → E → E) (Lf : ℝ)
+    (hdesc : ∀ x y : E, f y ≤ f x + inner ℝ (grad x) (y - x) + Lf / 2 * (‖y - x‖ * ‖y - x‖))
+    (l0 g : ℝ) (maxiter : Nat) (x v : E) (ps ps' : PolState E (XR ℝ)) (L' : XR ℝ)
+    (h : update (envOfSpace f grad prox smul) (.ls (fin g) maxiter) x (fin l0) ps v = some (L', ps'))
+    (hreach : ∃ j, j < maxiter ∧ Lf ≤ l0 * g ^ j) :
+    Accept (envOfSpace f grad prox smul) v L' := by
+  obtain ⟨hacc, _⟩ := C16_linesearch_bounded f grad prox smul Lf hdesc l0 g maxiter x v ps ps' L' h
+  obtain ⟨j0, hj0, hL⟩ := hreach
+  rcases C16_linesearch_update _ _ _ _ _ _ _ _ _ h with ⟨h0, _, _⟩ | ⟨k, hk, hL', _, hall, hend⟩
+  · omega
+  · rcases hend with ha | hlast
+    · exact ha
+    · rw [hL', C16_linesearch_value]
+      by_cases hc : Lf ≤ l0 * g ^ k
+      · exact hacc _ hc
+      · -- every value of the budget would be below Lf, contradicting `hreach`
+        exfalso
+        have hj : j0 ≤ k := by omega
+        rcases Nat.lt_or_eq_of_le hj with hlt | heq
+        · have hrej := hall j0 hlt
+          rw [C16_linesearch_value] at hrej
+          exact hrej (hacc _ hL)
+        · rw [heq] at hL; exact hc hL
 
 -- non-vacuity of the descent hypothesis: f(x) = x²/2 on ℝ, ∇f = id, Lf = 1 (equality holds)
 example : ∀ x y : ℝ, y ^ 2 / 2 ≤ x ^ 2 / 2 + inner ℝ x (y - x) + 1 / 2 * (‖y - x‖ * ‖y - x‖) := by
